@@ -336,8 +336,11 @@ def _agree(ck, p):
         if ok:
             _, bi, t = cs[0]
             roles = [flatten(pv.trace_operand(a)) for a in t["args"]]
-            ok = roles[0] == {("arg", 1)} and roles[1] == {("arg", 2)} and roles[2] == {("arg", 3)}
-            detail += "; argument roles (self, lint, document) = %s" % [sorted(map(str, r)) for r in roles]
+            # the lint and the document handed to the hash are this function's own lint and document parameters
+            # (hash_lint_context may or may not take self)
+            tail = roles[-2:]
+            ok = len(roles) >= 2 and tail[0] == {("arg", 2)} and tail[1] == {("arg", 3)} and (len(roles) == 2 or roles[0] == {("arg", 1)})
+            detail += "; argument roles (.., lint, document) = %s" % [sorted(map(str, r)) for r in roles]
             # the set operation uses that hash
             setops = [(b, bi2, t2) for b, bi2, t2 in calls(p, f) if re.search(r"HashSet.*::(insert|contains)$|::set::.*::(insert|contains)$", (t2["f"].get("pretty") or "") + " " + (t2["f"].get("inst") or ""))]
             if len(setops) != 1:
